@@ -148,38 +148,33 @@ Proof.
 Qed.
 
 (* chains in the detached world *)
-Section DetachChains.
-  Variables (w : world) (ir v : id).
-  Let w' := detach w ir v.
+Lemma detach_upn_old w ir v : forall d n r, upn (detach w ir v) d n r -> upn w d n r.
+Proof.
+  induction d as [|d IH]; intros n r H; [exact H|].
+  destruct H as [p [Hp Hu]]. rewrite par_detach in Hp.
+  destruct (n =? v); [discriminate|]. exists p. split; [exact Hp|]. apply IH. exact Hu.
+Qed.
 
-  Lemma detach_upn_old : forall d n r, upn w' d n r -> upn w d n r.
-  Proof.
-    induction d as [|d IH]; intros n r H; [exact H|].
-    destruct H as [p [Hp Hu]]. unfold w' in Hp. rewrite par_detach in Hp.
-    destruct (n =? v); [discriminate|]. exists p. split; [exact Hp|]. apply IH. exact Hu.
-  Qed.
+Lemma detach_upn_new w ir v : forall d n r, upn w d n r -> ~ desc w v n -> upn (detach w ir v) d n r.
+Proof.
+  induction d as [|d IH]; intros n r H Hn; [exact H|].
+  destruct H as [p [Hp Hu]]. exists p. split.
+  - rewrite par_detach_other; [exact Hp|]. intro E. subst. apply Hn. apply desc_refl.
+  - apply IH; [exact Hu|]. intro Hd. apply Hn. eapply desc_step; eassumption.
+Qed.
 
-  Lemma detach_upn_new : forall d n r, upn w d n r -> ~ desc w v n -> upn w' d n r.
-  Proof.
-    induction d as [|d IH]; intros n r H Hn; [exact H|].
-    destruct H as [p [Hp Hu]]. exists p. split.
-    - unfold w'. rewrite par_detach_other; [exact Hp|]. intro E. subst. apply Hn. apply desc_refl.
-    - apply IH; [exact Hu|]. intro Hd. apply Hn. eapply desc_step; eassumption.
-  Qed.
-
-  (* a chain of the new world that starts below v cannot leave v's subtree *)
-  Lemma detach_upn_stuck : forall e n d r, upn w e n v -> upn w' d n r -> desc w v r.
-  Proof.
-    induction e as [|e IH]; intros n d r He Hd.
-    - cbn in He. subst n. destruct d as [|d].
-      + cbn in Hd. subst. apply desc_refl.
-      + destruct Hd as [p [Hp _]]. unfold w' in Hp. rewrite par_detach_same in Hp. discriminate.
-    - destruct He as [p [Hp He]]. destruct d as [|d].
-      + cbn in Hd. subst r. exists (S e). exists p. split; assumption.
-      + destruct Hd as [p' [Hp' Hd]]. unfold w' in Hp'. rewrite par_detach in Hp'.
-        destruct (n =? v); [discriminate|]. rewrite Hp in Hp'. inversion Hp'. subst p'. eapply IH; eassumption.
-  Qed.
-End DetachChains.
+(* a chain of the new world that starts below v cannot leave v's subtree *)
+Lemma detach_upn_stuck w ir v : forall e n d r, upn w e n v -> upn (detach w ir v) d n r -> desc w v r.
+Proof.
+  induction e as [|e IH]; intros n d r He Hd.
+  - cbn in He. subst n. destruct d as [|d].
+    + cbn in Hd. subst. apply desc_refl.
+    + destruct Hd as [p [Hp _]]. rewrite par_detach_same in Hp. discriminate.
+  - destruct He as [p [Hp He]]. destruct d as [|d].
+    + cbn in Hd. subst r. exists (S e). exists p. split; assumption.
+    + destruct Hd as [p' [Hp' Hd]]. rewrite par_detach in Hp'.
+      destruct (n =? v); [discriminate|]. rewrite Hp in Hp'. inversion Hp'. subst p'. eapply IH; eassumption.
+Qed.
 
 Lemma detach_inv w known ir v :
   Forest w known -> CacheInv w -> has w ir = true -> kindof w ir = KIR -> In v (kids w ir) ->
@@ -305,35 +300,30 @@ Proof.
   - intros a b Ha Hb. rewrite !nuuid_attach. apply (f_uuid w known F); assumption.
 Qed.
 
-Section AttachChains.
-  Variables (w : world) (ir v : id) (L : list id).
-  Hypothesis Pv : par w v = None.
-  Let w' := attach w ir v L.
+Lemma attach_upn_old w ir v L : par w v = None -> forall d n r, upn w d n r -> upn (attach w ir v L) d n r.
+Proof.
+  intro Pv. induction d as [|d IH]; intros n r H; [exact H|].
+  destruct H as [p [Hp Hu]]. exists p. split; [|apply IH; exact Hu].
+  rewrite par_attach_other; [exact Hp|]. intro E. subst. congruence.
+Qed.
 
-  Lemma attach_upn_old : forall d n r, upn w d n r -> upn w' d n r.
-  Proof.
-    induction d as [|d IH]; intros n r H; [exact H|].
-    destruct H as [p [Hp Hu]]. exists p. split; [|apply IH; exact Hu].
-    unfold w'. rewrite par_attach_other; [exact Hp|]. intro E. subst. congruence.
-  Qed.
+Lemma attach_upn_new w ir v L : forall d n r,
+  upn (attach w ir v L) d n r -> desc w r n \/ (desc w v n /\ exists d', upn (attach w ir v L) d' ir r).
+Proof.
+  induction d as [|d IH]; intros n r H.
+  - cbn in H. subst. left. apply desc_refl.
+  - destruct H as [p [Hp Hu]]. rewrite par_attach in Hp. destruct (Z.eqb_spec n v) as [E|E].
+    + inversion Hp. subst. right. split; [apply desc_refl|]. exists d. exact Hu.
+    + destruct (IH p r Hu) as [H|[H1 H2]].
+      * left. eapply desc_step; eassumption.
+      * right. split; [|exact H2]. eapply desc_step; eassumption.
+Qed.
 
-  Lemma attach_upn_new : forall d n r, upn w' d n r -> desc w r n \/ (desc w v n /\ exists d', upn w' d' ir r).
-  Proof.
-    induction d as [|d IH]; intros n r H.
-    - cbn in H. subst. left. apply desc_refl.
-    - destruct H as [p [Hp Hu]]. unfold w' in Hp. rewrite par_attach in Hp. destruct (Z.eqb_spec n v) as [E|E].
-      + inversion Hp. subst. right. split; [apply desc_refl|]. exists d. exact Hu.
-      + destruct (IH p r Hu) as [H|[H1 H2]].
-        * left. eapply desc_step; eassumption.
-        * right. split; [|exact H2]. eapply desc_step; eassumption.
-  Qed.
-
-  Lemma attach_desc_v n : desc w v n -> desc w' ir n.
-  Proof.
-    intros [e He]. exists (S e). apply upn_snoc. exists v. split; [apply attach_upn_old; exact He|].
-    unfold w'. apply par_attach_same.
-  Qed.
-End AttachChains.
+Lemma attach_desc_v w ir v L n : par w v = None -> desc w v n -> desc (attach w ir v L) ir n.
+Proof.
+  intros Pv [e He]. exists (S e). apply upn_snoc. exists v. split; [apply attach_upn_old; assumption|].
+  apply par_attach_same.
+Qed.
 
 Lemma attach_inv w known ir v L :
   Forest w known -> CacheInv w -> has w ir = true -> kindof w ir = KIR -> has w v = true -> kindof w v = KMod -> par w v = None ->
@@ -343,10 +333,6 @@ Proof.
   intros F C Hir Kir Hv Kv Pv HL HLin.
   assert (F' : Forest (attach w ir v L) known) by (apply attach_forest; assumption).
   assert (Hne : v <> ir) by (intro E; subst; congruence).
-  assert (Hdisj : forall n, desc w ir n -> desc w v n -> False).
-  { intros n [d Hd] [e He]. destruct (upn_comparable w d n ir e v Hd He) as [[k Hk]|[k Hk]].
-    - destruct k as [|k]; [cbn in Hk; congruence|]. destruct Hk as [p [Hp _]]. congruence.
-    - apply Hne. symmetry. exact (upn_from_ir w known ir v k F Kir Hk). }
   split; [exact F'|].
   intros ir' Hh' Hk'. rewrite (has_attach w ir v L ir' Hv) in Hh'. rewrite kindof_attach in Hk'.
   destruct (C ir' Hh' Hk') as [Hn Hg].
@@ -1158,4 +1144,863 @@ Proof.
   destruct (extend_fold known ir vs w F C G1 G2) as [F' [C' Hf]].
   apply (good_ok w known _ (fst (fold_ok (fun w v => ml_append w ir v) vs w))); [|exact F'|exact C'].
   rewrite step_extend. apply flagged_true. exact Hf.
+Qed.
+
+(* ---- batches of removals ---- *)
+Lemma remove_batch w known ir vs :
+  Forest w known -> CacheInv w -> is_k w ir KIR = true -> NoDup vs -> (forall v, In v vs -> In v (kids w ir)) ->
+  Forest (with_kids (fst (fold_ok (fun w v => ml_remove_hook w ir v) vs w)) ir (filter (fun x => negb (mem x vs)) (kids w ir))) known /\
+  CacheInv (with_kids (fst (fold_ok (fun w v => ml_remove_hook w ir v) vs w)) ir (filter (fun x => negb (mem x vs)) (kids w ir))) /\
+  snd (fold_ok (fun w v => ml_remove_hook w ir v) vs w) = true /\
+  (forall x k, is_k (fst (fold_ok (fun w v => ml_remove_hook w ir v) vs w)) x k = is_k w x k).
+Proof.
+  intros F C G Hnd Hin. destruct (virtual_start w known ir F C) as [F0 C0].
+  pose proof (remove_hooks_fold known ir vs w (kids w ir) F0 C0 G Hnd Hin) as H.
+  rewrite fold_remove_filter in H. exact H.
+Qed.
+
+Lemma remove_slice w known ir pre vic post :
+  Forest w known -> CacheInv w -> is_k w ir KIR = true -> kids w ir = pre ++ vic ++ post ->
+  Forest (with_kids (fst (fold_ok (fun w v => ml_remove_hook w ir v) vic w)) ir (pre ++ post)) known /\
+  CacheInv (with_kids (fst (fold_ok (fun w v => ml_remove_hook w ir v) vic w)) ir (pre ++ post)) /\
+  snd (fold_ok (fun w v => ml_remove_hook w ir v) vic w) = true /\
+  (forall x k, is_k (fst (fold_ok (fun w v => ml_remove_hook w ir v) vic w)) x k = is_k w x k) /\
+  filter (fun x => negb (mem x vic)) (kids w ir) = pre ++ post.
+Proof.
+  intros F C G Hl.
+  assert (Hnd : NoDup (pre ++ vic ++ post)) by (rewrite <- Hl; apply (f_nodup w known F)).
+  assert (Hf : filter (fun x => negb (mem x vic)) (kids w ir) = pre ++ post) by (rewrite Hl; apply filter_slice; exact Hnd).
+  destruct (NoDup_app_inv pre (vic ++ post) Hnd) as [_ [H2 _]]. destruct (NoDup_app_inv vic post H2) as [Hv _].
+  destruct (remove_batch w known ir vic F C G Hv) as [F1 [C1 [Hf1 Hk1]]].
+  - intros v Hi. rewrite Hl. apply in_or_app. right. apply in_or_app. left. exact Hi.
+  - rewrite Hf in F1, C1. auto.
+Qed.
+
+(* ---- del slice ---- *)
+Definition slice_victims (l : list id) (lo hi : Z) : list id := firstn (Z.to_nat (hi - lo)) (skipn (Z.to_nat lo) l).
+
+Lemma step_delslice w ir a b :
+  step w (OModDelSlice ir a b) =
+  let l := kids w ir in
+  let lo := norm_bound a 0 (length l) in
+  let hi := norm_bound b (Z.of_nat (length l)) (length l) in
+  let victims := slice_victims l lo hi in
+  flagged (with_kids (fst (fold_ok (fun w v => ml_remove_hook w ir v) victims w)) ir (filter (fun v => negb (mem v victims)) l),
+           snd (fold_ok (fun w v => ml_remove_hook w ir v) victims w)).
+Proof.
+  cbn [step]. cbv zeta. unfold slice_victims.
+  set (victims := firstn _ _).
+  pose proof (kids_remove_hooks_fold ir victims w) as Hk.
+  destruct (fold_ok (fun w v => ml_remove_hook w ir v) victims w) as [w1 ok]. cbn [fst snd] in *.
+  unfold with_kids. rewrite Hk. reflexivity.
+Qed.
+
+Lemma slice_victims_split l lo hi :
+  0 <= lo -> l = firstn (Z.to_nat lo) l ++ slice_victims l lo hi ++ skipn (Z.to_nat (Z.max lo hi)) l.
+Proof.
+  intro H. unfold slice_victims.
+  replace (Z.to_nat (Z.max lo hi)) with (Z.to_nat lo + Z.to_nat (hi - lo))%nat by lia.
+  apply slice_split.
+Qed.
+
+Lemma norm_bound_nonneg o d len : 0 <= d -> 0 <= norm_bound o d len.
+Proof.
+  intro H. unfold norm_bound. destruct o as [i|]; [|exact H].
+  destruct (Z.ltb_spec i 0); lia.
+Qed.
+
+Lemma good_delslice w known ir a b :
+  Forest w known -> CacheInv w -> op_okb w known (OModDelSlice ir a b) = true -> Good w known (OModDelSlice ir a b).
+Proof.
+  intros F C G. cbn [op_okb] in G. pose proof (step_delslice w ir a b) as Hs. cbv zeta in Hs.
+  set (l := kids w ir) in *. set (lo := norm_bound a 0 (length l)) in *.
+  set (hi := norm_bound b (Z.of_nat (length l)) (length l)) in *.
+  assert (Hlo : 0 <= lo) by (apply norm_bound_nonneg; lia).
+  destruct (remove_slice w known ir _ _ _ F C G (slice_victims_split l lo hi Hlo)) as [F1 [C1 [Hf1 [_ Hfl]]]].
+  fold l in Hfl. rewrite Hfl, Hf1 in Hs. cbn [flagged] in Hs.
+  apply (good_ok w known _ _ Hs); assumption.
+Qed.
+
+(* ---- clear ---- *)
+Lemma step_clear w ir :
+  step w (OModClear ir) =
+  flagged (with_kids (fst (fold_ok (fun w v => ml_remove_hook w ir v) (rev (kids w ir)) w)) ir [],
+           snd (fold_ok (fun w v => ml_remove_hook w ir v) (rev (kids w ir)) w)).
+Proof.
+  cbn [step]. destruct (fold_ok (fun w v => ml_remove_hook w ir v) (rev (kids w ir)) w) as [w1 ok]. reflexivity.
+Qed.
+
+Lemma good_clear w known ir :
+  Forest w known -> CacheInv w -> op_okb w known (OModClear ir) = true -> Good w known (OModClear ir).
+Proof.
+  intros F C G. cbn [op_okb] in G.
+  destruct (remove_batch w known ir (rev (kids w ir)) F C G) as [F1 [C1 [Hf1 _]]].
+  - apply NoDup_rev. apply (f_nodup w known F).
+  - intros v Hv. apply in_rev. exact Hv.
+  - rewrite (filter_none _ (kids w ir)) in F1, C1.
+    2,3: intros x Hx; apply negb_false_iff; apply mem_In; apply in_rev in Hx; exact Hx.
+    pose proof (step_clear w ir) as Hs. rewrite Hf1 in Hs. cbn [flagged] in Hs.
+    apply (good_ok w known _ _ Hs); assumption.
+Qed.
+
+(* ---- set slice ---- *)
+Lemma setslice_main w known ir pre vic post vs :
+  Forest w known -> CacheInv w -> is_k w ir KIR = true -> kids w ir = pre ++ vic ++ post ->
+  (forall v, In v vs -> is_k w v KMod = true) -> NoDup vs -> (forall v, In v vs -> ~ In v (pre ++ post)) ->
+  let w1 := fst (fold_ok (fun w v => ml_remove_hook w ir v) vic w) in
+  Forest (with_kids (fst (fold_ok (fun w v => ml_add_hook w ir v) vs w1)) ir (pre ++ vs ++ post)) known /\
+  CacheInv (with_kids (fst (fold_ok (fun w v => ml_add_hook w ir v) vs w1)) ir (pre ++ vs ++ post)) /\
+  snd (fold_ok (fun w v => ml_remove_hook w ir v) vic w) = true /\
+  snd (fold_ok (fun w v => ml_add_hook w ir v) vs w1) = true.
+Proof.
+  intros F C G Hl Gv Hnd Hnin w1.
+  destruct (remove_slice w known ir pre vic post F C G Hl) as [F1 [C1 [Hf1 [Hk1 _]]]]. fold w1 in F1, C1, Hk1.
+  destruct (add_hooks_fold known ir vs w1 pre post F1 C1) as [F2 [C2 [Hf2 _]]].
+  - rewrite Hk1. exact G.
+  - intros v Hv. rewrite Hk1. apply Gv. exact Hv.
+  - exact Hnd.
+  - exact Hnin.
+  - auto.
+Qed.
+
+Lemma step_setslice w ir a b vs :
+  step w (OModSetSlice ir a b vs) =
+  let l := kids w ir in
+  let lo := norm_bound a 0 (length l) in
+  let hi := Z.max lo (norm_bound b (Z.of_nat (length l)) (length l)) in
+  let pre := firstn (Z.to_nat lo) l in
+  let victims := slice_victims l lo hi in
+  let post := skipn (Z.to_nat hi) l in
+  if existsb (fun v => mem v pre || mem v post) vs || negb (Nat.eqb (length (dedup vs)) (length vs)) then Err EImpossible
+  else
+    let w1 := fst (fold_ok (fun w v => ml_remove_hook w ir v) victims w) in
+    flagged (with_kids (fst (fold_ok (fun w v => ml_add_hook w ir v) vs w1)) ir (pre ++ vs ++ post),
+             snd (fold_ok (fun w v => ml_remove_hook w ir v) victims w) && snd (fold_ok (fun w v => ml_add_hook w ir v) vs w1)).
+Proof.
+  cbn [step]. cbv zeta. unfold slice_victims.
+  destruct (existsb _ vs || _); [reflexivity|].
+  destruct (fold_ok (fun w v => ml_remove_hook w ir v) _ w) as [w1 ok1]. cbn [fst snd].
+  destruct (fold_ok (fun w v => ml_add_hook w ir v) vs w1) as [w2 ok2]. reflexivity.
+Qed.
+
+Lemma good_setslice w known ir a b vs :
+  Forest w known -> CacheInv w -> op_okb w known (OModSetSlice ir a b vs) = true -> Good w known (OModSetSlice ir a b vs).
+Proof.
+  intros F C G. cbn [op_okb] in G. apply andb_true_iff in G. destruct G as [G1 G2]. rewrite forallb_forall in G2.
+  pose proof (step_setslice w ir a b vs) as Hs. cbv zeta in Hs.
+  set (l := kids w ir) in *. set (lo := norm_bound a 0 (length l)) in *.
+  set (hi := Z.max lo (norm_bound b (Z.of_nat (length l)) (length l))) in *.
+  set (pre := firstn (Z.to_nat lo) l) in *. set (post := skipn (Z.to_nat hi) l) in *.
+  destruct (existsb (fun v => mem v pre || mem v post) vs || negb (Nat.eqb (length (dedup vs)) (length vs))) eqn:Ec.
+  { apply (good_err w known _ EImpossible); [exact Hs|discriminate|reflexivity|exact F|exact C]. }
+  apply orb_false_iff in Ec. destruct Ec as [Ec1 Ec2].
+  assert (Hlo : 0 <= lo) by (apply norm_bound_nonneg; lia).
+  assert (Hl : kids w ir = pre ++ slice_victims l lo hi ++ post).
+  { pose proof (slice_victims_split l lo hi Hlo) as H. replace (Z.max lo hi) with hi in H by (unfold hi; lia). exact H. }
+  assert (Hnd : NoDup vs).
+  { apply dedup_full_nodup. apply negb_false_iff in Ec2. apply Nat.eqb_eq. exact Ec2. }
+  assert (Hnin : forall v, In v vs -> ~ In v (pre ++ post)).
+  { intros v Hv Hi. assert (Hex : existsb (fun v => mem v pre || mem v post) vs = true); [|congruence].
+    apply existsb_exists. exists v. split; [exact Hv|]. apply in_app_or in Hi. apply orb_true_iff.
+    destruct Hi as [Hi|Hi]; [left|right]; apply mem_In; exact Hi. }
+  destruct (setslice_main w known ir pre (slice_victims l lo hi) post vs F C G1 Hl G2 Hnd Hnin) as [F2 [C2 [Hf1 Hf2]]].
+  rewrite Hf1, Hf2 in Hs. cbn [andb flagged] in Hs.
+  apply (good_ok w known _ _ Hs); assumption.
+Qed.
+
+(* ================================================================== *)
+(* main theorems                                                       *)
+(* ================================================================== *)
+
+Theorem f2_good : forall w known o,
+  Forest w known -> CacheInv w -> op_okb w known o = true -> F2 w o -> Good w known o.
+Proof.
+  intros w known o F C G H. destruct o; cbn [F2] in H; try contradiction.
+  - apply good_new; assumption.
+  - apply good_setparent_mod; assumption.
+  - apply good_append; assumption.
+  - apply good_insert; assumption.
+  - apply good_extend; assumption.
+  - apply good_remove; assumption.
+  - apply (good_del w known ir i); [assumption|assumption|exact G|apply step_pop|reflexivity].
+  - apply (good_del w known ir i); [assumption|assumption|exact G|apply step_delitem|reflexivity].
+  - apply good_delslice; assumption.
+  - apply good_setitem; assumption.
+  - apply good_setslice; assumption.
+  - apply good_clear; assumption.
+  - apply good_reverse; assumption.
+Qed.
+
+Theorem f2_preserves : forall w known o,
+  Forest w known -> CacheInv w -> op_okb w known o = true -> F2 w o ->
+  Forest (step' w o) (known_after o known) /\ CacheInv (step' w o).
+Proof. intros w known o F C G H. apply (f2_good w known o F C G H). Qed.
+
+Theorem f2_no_keyerror : forall w known o,
+  Forest w known -> CacheInv w -> op_okb w known o = true -> F2 w o -> step w o <> Err EKey.
+Proof. intros w known o F C G H. apply (f2_good w known o F C G H). Qed.
+
+
+(* ================================================================== *)
+(* effect lemmas                                                       *)
+(* ================================================================== *)
+
+Lemma with_par_twice x p q : with_par (with_par x p) q = with_par x q.
+Proof. reflexivity. Qed.
+
+(* a module is in nobody's list but its owner's; non-IR nodes never list modules *)
+Lemma kids_pre_detach w known v :
+  Forest w known -> forall x, kids (pre_detach w v) x = remove_id v (kids w x).
+Proof.
+  intros F x. unfold pre_detach. destruct (par w v) as [old|] eqn:E.
+  - rewrite kids_detach. destruct (Z.eqb_spec x old) as [E1|E1].
+    + subst. apply upd_same.
+    + rewrite upd_other by exact E1. symmetry. apply remove_id_notin. intro H.
+      apply (f_two_ended w known F) in H. congruence.
+  - symmetry. apply remove_id_notin. intro H. apply (f_two_ended w known F) in H. congruence.
+Qed.
+
+Lemma remove_mod_nonir w known v x :
+  Forest w known -> kindof w v = KMod -> kindof w x <> KIR -> remove_id v (kids w x) = kids w x.
+Proof.
+  intros F Kv Kx. apply remove_id_notin. intro H. apply (f_two_ended w known F) in H.
+  destruct (parent_of_mod_is_ir w known v x F Kv H) as [K _]. contradiction.
+Qed.
+
+Lemma filter_length_le' {X} (p : X -> bool) l : (length (filter p l) <= length l)%nat.
+Proof. induction l as [|y l IH]; [cbn; lia|]. cbn [filter]. destruct (p y); cbn [length]; lia. Qed.
+
+Lemma getn_pre_detach_other w v x : x <> v -> getn (pre_detach w v) x = getn w x.
+Proof.
+  intro H. unfold pre_detach. destruct (par w v) as [old|]; [|reflexivity].
+  rewrite getn_detach. destruct (Z.eqb_spec x v); [contradiction|reflexivity].
+Qed.
+
+Lemma nodes_pre_detach_other w v x : x <> v -> nodes (pre_detach w v) x = nodes w x.
+Proof.
+  intro H. unfold pre_detach. destruct (par w v) as [old|]; [|reflexivity].
+  rewrite nodes_detach. destruct (Z.eqb_spec x v); [contradiction|reflexivity].
+Qed.
+
+Lemma with_par_getn_pre_detach w v q : with_par (getn (pre_detach w v) v) q = with_par (getn w v) q.
+Proof.
+  unfold pre_detach. destruct (par w v) as [old|]; [|reflexivity].
+  rewrite getn_detach, Z.eqb_refl. reflexivity.
+Qed.
+
+Lemma nodes_pre_detach_same w v : has w v = true -> nodes (pre_detach w v) v = Some (with_par (getn w v) None).
+Proof.
+  intro H. unfold pre_detach. destruct (par w v) as [old|] eqn:E.
+  - rewrite nodes_detach, Z.eqb_refl. reflexivity.
+  - unfold has in H. unfold par in E. unfold getn in *. destruct (nodes w v) as [nd|]; [|discriminate].
+    destruct nd as [a1 a2 a3 a4 a5 a6 a7 a8]. cbn in E. subst. reflexivity.
+Qed.
+
+(* ---------- insert ---------- *)
+Lemma clamp_insert_le i len : (clamp_insert i len <= len)%nat.
+Proof. unfold clamp_insert. destruct (Z.ltb_spec i 0); lia. Qed.
+
+Lemma clamp_insert_big i len : Z.of_nat len <= i -> clamp_insert i len = len.
+Proof. intro H. unfold clamp_insert. destruct (Z.ltb_spec i 0); lia. Qed.
+
+Theorem insert_effect w known ir i v :
+  Forest w known -> CacheInv w -> op_okb w known (OModInsert ir i v) = true ->
+  let l := remove_id v (kids w ir) in
+  exists w', step w (OModInsert ir i v) = Ok w' /\
+    kids w' ir = insert_at (clamp_insert i (length l)) v l /\
+    (forall x, x <> ir -> kids w' x = remove_id v (kids w x)) /\
+    (forall x, nodes w' x = if x =? v then Some (with_par (getn w v) (Some ir)) else nodes w x) /\
+    par w' v = Some ir.
+Proof.
+  intros F C G l. cbn [op_okb] in G. apply andb_true_iff in G. destruct G as [G1 G2].
+  destruct (insert_inv w known ir i v F C G1 G2) as [_ [_ Hf]].
+  exists (fst (ml_insert w ir i v)). split; [rewrite step_insert; apply flagged_true; exact Hf|].
+  rewrite (ml_insert_eq w known ir i v F). cbn [fst].
+  rewrite kids_attach_same, (kids_pre_detach w known v F ir). fold l.
+  split; [reflexivity|]. split; [|split].
+  - intros x Hx. rewrite kids_attach_other by exact Hx. apply (kids_pre_detach w known v F).
+  - intro x. rewrite nodes_attach. destruct (Z.eqb_spec x v) as [E|E].
+    + rewrite with_par_getn_pre_detach. reflexivity.
+    + apply nodes_pre_detach_other. exact E.
+  - apply par_attach_same.
+Qed.
+
+Corollary insert_effect_fresh w known ir i v :
+  Forest w known -> CacheInv w -> op_okb w known (OModInsert ir i v) = true -> ~ In v (kids w ir) ->
+  kids (step' w (OModInsert ir i v)) ir = insert_at (clamp_insert i (length (kids w ir))) v (kids w ir).
+Proof.
+  intros F C G H. destruct (insert_effect w known ir i v F C G) as [w' [Hs [Hk _]]].
+  rewrite (step'_ok _ _ _ Hs), Hk, (remove_id_notin v _ H). reflexivity.
+Qed.
+
+(* ---------- append: len is read before the hook, insert_at clamps ---------- *)
+Theorem append_effect w known ir v :
+  Forest w known -> CacheInv w -> op_okb w known (OModAppend ir v) = true ->
+  exists w', step w (OModAppend ir v) = Ok w' /\
+    kids w' ir = remove_id v (kids w ir) ++ [v] /\
+    (forall x, x <> ir -> kids w' x = remove_id v (kids w x)) /\
+    (forall x, nodes w' x = if x =? v then Some (with_par (getn w v) (Some ir)) else nodes w x) /\
+    par w' v = Some ir.
+Proof.
+  intros F C G.
+  destruct (insert_effect w known ir (Z.of_nat (length (kids w ir))) v F C G) as [w' [Hs [Hk H]]].
+  exists w'. split; [exact Hs|]. split; [|exact H]. rewrite Hk.
+  apply insert_at_ge. rewrite clamp_insert_big; [lia|].
+  apply inj_le. unfold remove_id. apply filter_length_le'.
+Qed.
+
+Corollary append_effect_fresh w known ir v :
+  Forest w known -> CacheInv w -> op_okb w known (OModAppend ir v) = true -> ~ In v (kids w ir) ->
+  kids (step' w (OModAppend ir v)) ir = kids w ir ++ [v].
+Proof.
+  intros F C G H. destruct (append_effect w known ir v F C G) as [w' [Hs [Hk _]]].
+  rewrite (step'_ok _ _ _ Hs), Hk, (remove_id_notin v _ H). reflexivity.
+Qed.
+
+(* ---------- what detach does (remove / pop / del item / ir setter to None) ---------- *)
+Lemma detach_effects w known ir v :
+  Forest w known -> In v (kids w ir) ->
+  kids (detach w ir v) ir = remove_id v (kids w ir) /\
+  (forall x, x <> ir -> kids (detach w ir v) x = kids w x) /\
+  (forall x, nodes (detach w ir v) x = if x =? v then Some (with_par (getn w v) None) else nodes w x) /\
+  par (detach w ir v) v = None /\
+  (forall x, x <> ir -> cache (detach w ir v) x = cache w x).
+Proof.
+  intros F H. split; [apply kids_detach_same|]. split; [intros x Hx; apply kids_detach_other; exact Hx|].
+  split; [intro x; apply nodes_detach|]. split; [apply par_detach_same|].
+  intros x Hx. rewrite cache_detach. apply upd_other. exact Hx.
+Qed.
+
+Theorem remove_effect_in w known ir v :
+  Forest w known -> CacheInv w -> op_okb w known (OModRemove ir v) = true -> In v (kids w ir) ->
+  exists i, index_of v (kids w ir) = Some i /\
+    step w (OModRemove ir v) = Ok (detach w ir v) /\
+    kids (detach w ir v) ir = remove_at i (kids w ir) /\
+    kids (detach w ir v) ir = remove_id v (kids w ir) /\
+    (forall x, x <> ir -> kids (detach w ir v) x = kids w x) /\
+    (forall x, nodes (detach w ir v) x = if x =? v then Some (with_par (getn w v) None) else nodes w x) /\
+    par (detach w ir v) v = None.
+Proof.
+  intros F C G H. cbn [op_okb] in G. apply andb_true_iff in G. destruct G as [G1 _].
+  destruct (index_of_In v (kids w ir) H) as [i Hi]. exists i. split; [exact Hi|].
+  split; [apply (step_remove_in w known); assumption|].
+  destruct (detach_effects w known ir v F H) as [H1 [H2 [H3 [H4 _]]]].
+  split; [|auto]. rewrite H1. symmetry. apply remove_at_nth_nodup; [apply (f_nodup w known F)|apply index_of_nth; exact Hi].
+Qed.
+
+Theorem remove_effect_notin w ir v : ~ In v (kids w ir) -> step w (OModRemove ir v) = Err EValue.
+Proof. apply step_remove_notin. Qed.
+
+Theorem del_effect_some w known ir i k o :
+  Forest w known -> CacheInv w -> is_k w ir KIR = true -> step w o = del_step w ir i ->
+  norm_index i (length (kids w ir)) = Some k ->
+  exists v, nth_error (kids w ir) k = Some v /\
+    step w o = Ok (detach w ir v) /\
+    kids (detach w ir v) ir = remove_at k (kids w ir) /\
+    (forall x, x <> ir -> kids (detach w ir v) x = kids w x) /\
+    (forall x, nodes (detach w ir v) x = if x =? v then Some (with_par (getn w v) None) else nodes w x) /\
+    par (detach w ir v) v = None.
+Proof.
+  intros F C G Hs Hn. destruct (del_step_some w known ir i k F C G Hn) as [v [Hv Hd]].
+  exists v. split; [exact Hv|]. split; [congruence|].
+  destruct (detach_effects w known ir v F (nth_error_In _ _ Hv)) as [H1 [H2 [H3 [H4 _]]]].
+  split; [|auto]. rewrite H1. symmetry. apply remove_at_nth_nodup; [apply (f_nodup w known F)|exact Hv].
+Qed.
+
+Theorem pop_effect_some w known ir i k :
+  Forest w known -> CacheInv w -> op_okb w known (OModPop ir i) = true -> norm_index i (length (kids w ir)) = Some k ->
+  exists v, nth_error (kids w ir) k = Some v /\
+    step w (OModPop ir i) = Ok (detach w ir v) /\
+    kids (detach w ir v) ir = remove_at k (kids w ir) /\
+    (forall x, x <> ir -> kids (detach w ir v) x = kids w x) /\
+    (forall x, nodes (detach w ir v) x = if x =? v then Some (with_par (getn w v) None) else nodes w x) /\
+    par (detach w ir v) v = None.
+Proof. intros F C G. apply (del_effect_some w known ir i k _ F C G (step_pop w ir i)). Qed.
+
+Theorem delitem_effect_some w known ir i k :
+  Forest w known -> CacheInv w -> op_okb w known (OModDelItem ir i) = true -> norm_index i (length (kids w ir)) = Some k ->
+  exists v, nth_error (kids w ir) k = Some v /\
+    step w (OModDelItem ir i) = Ok (detach w ir v) /\
+    kids (detach w ir v) ir = remove_at k (kids w ir) /\
+    (forall x, x <> ir -> kids (detach w ir v) x = kids w x) /\
+    (forall x, nodes (detach w ir v) x = if x =? v then Some (with_par (getn w v) None) else nodes w x) /\
+    par (detach w ir v) v = None.
+Proof. intros F C G. apply (del_effect_some w known ir i k _ F C G (step_delitem w ir i)). Qed.
+
+Theorem pop_effect_none w ir i : norm_index i (length (kids w ir)) = None -> step w (OModPop ir i) = Err EIndex.
+Proof. intro H. rewrite step_pop. apply del_step_none. exact H. Qed.
+
+Theorem delitem_effect_none w ir i : norm_index i (length (kids w ir)) = None -> step w (OModDelItem ir i) = Err EIndex.
+Proof. intro H. rewrite step_delitem. apply del_step_none. exact H. Qed.
+
+(* ---------- reverse ---------- *)
+Theorem reverse_effect w ir :
+  exists w', step w (OModReverse ir) = Ok w' /\ kids w' ir = rev (kids w ir) /\
+    (forall x, x <> ir -> kids w' x = kids w x) /\ (forall x, nodes w' x = nodes w x) /\ (forall x, cache w' x = cache w x).
+Proof.
+  exists (with_kids w ir (rev (kids w ir))). split; [apply step_reverse|]. split; [apply kids_with_kids_same|].
+  split; [intros x Hx; apply kids_with_kids_other; exact Hx|]. split; intro x; reflexivity.
+Qed.
+
+(* ---------- new ---------- *)
+Theorem new_effect w known n k u a s f nm p :
+  Forest w known -> op_okb w known (ONew n k u a s f nm p) = true ->
+  exists w', step w (ONew n k u a s f nm p) = Ok w' /\
+    par w' n = None /\ kids w' n = [] /\
+    nodes w' n = Some (new_node k u a s f nm p) /\
+    (forall x, x <> n -> nodes w' x = nodes w x) /\
+    (forall x, kids w' x = kids w x) /\
+    (forall x, x <> n -> cache w' x = cache w x) /\
+    (k = KIR -> cache w' n = [(u, n)]).
+Proof.
+  intros F G. cbn [op_okb] in G. repeat (apply andb_true_iff in G; destruct G as [G ?]).
+  apply negb_true_iff in G.
+  exists (new_world w n k u a s f nm p). split; [apply step_new|].
+  split; [rewrite par_new by exact G; apply par_nohas; exact G|].
+  split; [rewrite kids_new; apply (nohas_kids_nil w known n F G)|].
+  split; [rewrite nodes_new, Z.eqb_refl; reflexivity|].
+  split; [intros x Hx; rewrite nodes_new; destruct (Z.eqb_spec x n); [contradiction|reflexivity]|].
+  split; [intro x; apply kids_new|].
+  split; [intros x Hx; apply cache_new_other; exact Hx|].
+  intro E. subst k. rewrite cache_new_ir, Z.eqb_refl. reflexivity.
+Qed.
+
+(* ---------- the ir setter of a module ---------- *)
+Theorem setparent_none_effect w known c :
+  Forest w known -> CacheInv w -> op_okb w known (OSetParent c None) = true -> kindof w c = KMod ->
+  exists w', step w (OSetParent c None) = Ok w' /\
+    (forall x, kids w' x = remove_id c (kids w x)) /\
+    (forall x, x <> c -> nodes w' x = nodes w x) /\
+    nodes w' c = Some (with_par (getn w c) None) /\ par w' c = None.
+Proof.
+  intros F C G Kc. cbn [op_okb] in G. apply andb_true_iff in G. destruct G as [G _].
+  apply andb_true_iff in G. destruct G as [Hc _].
+  exists (pre_detach w c). split; [apply (step_setparent_mod w known c None F C Hc Kc)|].
+  split; [apply (kids_pre_detach w known c F)|]. split; [intros x Hx; apply nodes_pre_detach_other; exact Hx|].
+  split; [apply nodes_pre_detach_same; exact Hc|].
+  apply (pre_detach_inv w known c F C Hc Kc).
+Qed.
+
+Theorem setparent_some_effect w known c ir :
+  Forest w known -> CacheInv w -> op_okb w known (OSetParent c (Some ir)) = true -> kindof w c = KMod ->
+  exists w', step w (OSetParent c (Some ir)) = Ok w' /\
+    kids w' ir = remove_id c (kids w ir) ++ [c] /\
+    (forall x, x <> ir -> kids w' x = remove_id c (kids w x)) /\
+    (forall x, nodes w' x = if x =? c then Some (with_par (getn w c) (Some ir)) else nodes w x) /\
+    par w' c = Some ir.
+Proof.
+  intros F C G Kc. pose proof G as G0. cbn [op_okb] in G. apply andb_true_iff in G. destruct G as [G Gp].
+  apply andb_true_iff in G. destruct G as [Hc _].
+  destruct (pre_detach_inv w known c F C Hc Kc) as [F1 [C1 [_ [_ [Hh Hk]]]]].
+  rewrite Kc in Gp. cbn [parent_kind] in Gp. apply andb_true_iff in Gp. destruct Gp as [Hq Kq]. apply kind_eqb_eq in Kq.
+  assert (G1 : op_okb (pre_detach w c) known (OModAppend ir c) = true).
+  { cbn [op_okb]. apply andb_true_iff. split; apply is_k_spec; rewrite Hh, Hk; auto. }
+  destruct (append_effect (pre_detach w c) known ir c F1 C1 G1) as [w' [Hs [H1 [H2 [H3 H4]]]]].
+  exists w'. split.
+  - rewrite (step_setparent_mod w known c (Some ir) F C Hc Kc). exact Hs.
+  - assert (Hrr : forall x, remove_id c (kids (pre_detach w c) x) = remove_id c (kids w x)).
+    { intro x. rewrite (kids_pre_detach w known c F). apply remove_id_notin. rewrite In_remove_id. intros [_ H]. congruence. }
+    split; [rewrite H1, Hrr; reflexivity|]. split; [intros x Hx; rewrite (H2 x Hx); apply Hrr|]. split; [|exact H4].
+    intro x. rewrite H3. destruct (Z.eqb_spec x c) as [E|E].
+    + rewrite with_par_getn_pre_detach. reflexivity.
+    + apply nodes_pre_detach_other. exact E.
+Qed.
+
+(* ---------- closed forms for the hooks ---------- *)
+Lemma getn_of_nodes_eq w w' x : nodes w' x = nodes w x -> getn w' x = getn w x.
+Proof. intro H. unfold getn. rewrite H. reflexivity. Qed.
+
+Lemma getn_of_nodes_some w x nd : nodes w x = Some nd -> getn w x = nd.
+Proof. intro H. unfold getn. rewrite H. reflexivity. Qed.
+
+Lemma mem_cons x v vs : mem x (v :: vs) = (x =? v) || mem x vs.
+Proof. reflexivity. Qed.
+
+Lemma nodes_remove_hooks_fold ir vs : forall w x,
+  nodes (fst (fold_ok (fun w v => ml_remove_hook w ir v) vs w)) x =
+  if mem x vs then Some (with_par (getn w x) None) else nodes w x.
+Proof.
+  induction vs as [|v vs IH]; intros w x; [reflexivity|].
+  rewrite fold_ok_cons. cbn [fst]. rewrite IH, mem_cons, getn_remove_hook, nodes_remove_hook.
+  destruct (Z.eqb_spec x v) as [E|E]; cbn [orb].
+  - subst. destruct (mem v vs); reflexivity.
+  - reflexivity.
+Qed.
+
+Lemma cache_remove_hooks_fold_other ir vs : forall w x, x <> ir ->
+  cache (fst (fold_ok (fun w v => ml_remove_hook w ir v) vs w)) x = cache w x.
+Proof.
+  induction vs as [|v vs IH]; intros w x Hx; [reflexivity|].
+  rewrite fold_ok_cons. cbn [fst]. rewrite IH by exact Hx. rewrite cache_remove_hook. apply upd_other. exact Hx.
+Qed.
+
+Definition ok_except (w : world) (ir : id) : Prop :=
+  forall x, x <> ir -> (forall c, In c (kids w x) <-> par w c = Some x) /\ NoDup (kids w x).
+
+Lemma ok_except_virtual w known ir Lv : Forest (with_kids w ir Lv) known -> ok_except w ir.
+Proof.
+  intros F x Hx. split.
+  - intro c. pose proof (f_two_ended _ known F x c) as H. rewrite kids_with_kids_other in H by exact Hx. exact H.
+  - pose proof (f_nodup _ known F x) as H. rewrite kids_with_kids_other in H by exact Hx. exact H.
+Qed.
+
+Lemma ok_except_forest w known ir : Forest w known -> ok_except w ir.
+Proof. intros F x _. split; [apply (f_two_ended w known F)|apply (f_nodup w known F)]. Qed.
+
+Lemma add_hook_closed w ir v :
+  ok_except w ir -> par w v <> Some ir ->
+  (forall x, nodes (fst (ml_add_hook w ir v)) x = if x =? v then Some (with_par (getn w v) (Some ir)) else nodes w x) /\
+  (forall x, x <> ir -> kids (fst (ml_add_hook w ir v)) x = remove_id v (kids w x)) /\
+  kids (fst (ml_add_hook w ir v)) ir = kids w ir /\
+  (forall x, x <> ir -> par w v <> Some x -> cache (fst (ml_add_hook w ir v)) x = cache w x).
+Proof.
+  intros Hok Hp.
+  assert (Heq : ml_add_hook w ir v = (cache_add (set_par (pre_detach w v) v (Some ir)) ir v, pre_flag w v)).
+  { apply ml_add_hook_eq'. intros old E. assert (Hne : old <> ir) by congruence.
+    destruct (Hok old Hne) as [H1 H2]. split; [apply H1; exact E|exact H2]. }
+  rewrite Heq. cbn [fst]. split; [|split; [|split]].
+  - intro x. rewrite nodes_cache_add, nodes_set_par. destruct (Z.eqb_spec x v) as [E|E].
+    + rewrite with_par_getn_pre_detach. reflexivity.
+    + apply nodes_pre_detach_other. exact E.
+  - intros x Hx. rewrite kids_cache_add, kids_set_par. destruct (Hok x Hx) as [H1 _].
+    unfold pre_detach. destruct (par w v) as [old|] eqn:E.
+    + rewrite kids_detach. destruct (Z.eqb_spec x old) as [E1|E1].
+      * subst. apply upd_same.
+      * rewrite upd_other by exact E1. symmetry. apply remove_id_notin. intro H. apply H1 in H. congruence.
+    + symmetry. apply remove_id_notin. intro H. apply H1 in H. congruence.
+  - rewrite kids_cache_add, kids_set_par. unfold pre_detach. destruct (par w v) as [old|] eqn:E; [|reflexivity].
+    apply kids_detach_other. congruence.
+  - intros x Hx Hpx. rewrite cache_add_set_par, upd_other by exact Hx.
+    unfold pre_detach. destruct (par w v) as [old|] eqn:E; [|reflexivity].
+    rewrite cache_detach. apply upd_other. congruence.
+Qed.
+
+Lemma add_hooks_fold_closed known ir vs : forall w A B,
+  Forest (with_kids w ir (A ++ B)) known -> CacheInv (with_kids w ir (A ++ B)) -> is_k w ir KIR = true ->
+  (forall v, In v vs -> is_k w v KMod = true) -> NoDup vs -> (forall v, In v vs -> ~ In v (A ++ B)) ->
+  (forall x, x <> ir -> kids (fst (fold_ok (fun w v => ml_add_hook w ir v) vs w)) x = fold_left (fun l v => remove_id v l) vs (kids w x)) /\
+  (forall x, nodes (fst (fold_ok (fun w v => ml_add_hook w ir v) vs w)) x =
+             if mem x vs then Some (with_par (getn w x) (Some ir)) else nodes w x) /\
+  kids (fst (fold_ok (fun w v => ml_add_hook w ir v) vs w)) ir = kids w ir.
+Proof.
+  induction vs as [|v vs IH]; intros w A B F C G Gv Hnd Hnin.
+  - rewrite fold_ok_nil. cbn [fst fold_left]. split; [reflexivity|]. split; reflexivity.
+  - rewrite fold_ok_cons. cbn [fst].
+    assert (Hv : ~ In v (A ++ B)) by (apply Hnin; left; reflexivity).
+    assert (HndAB : NoDup (A ++ B)).
+    { pose proof (f_nodup _ known F ir) as H. rewrite kids_with_kids_same in H. exact H. }
+    assert (HpW : par w v <> Some ir).
+    { intro E. apply Hv. change (par w v) with (par (with_kids w ir (A ++ B)) v) in E.
+      apply (f_two_ended _ known F) in E. rewrite kids_with_kids_same in E. exact E. }
+    destruct (add_hook_closed w ir v (ok_except_virtual w known ir (A ++ B) F) HpW) as [Hn1 [Hk1 [Hki1 _]]].
+    inversion Hnd as [|v' vs' Hv' Hnd']. subst.
+    destruct (add_hook_virtual w known ir (A ++ B) v ((A ++ [v]) ++ B) F C G (Gv v (or_introl eq_refl)) Hv)
+      as [F1 [C1 [_ Hik1]]].
+    + apply NoDup_middle; assumption.
+    + intro x. rewrite !in_app_iff. cbn [In]. split.
+      * intros [[H|[H|[]]]|H]; [right; left; exact H|left; symmetry; exact H|right; right; exact H].
+      * intros [H|[H|H]]; [left; right; left; symmetry; exact H|left; left; exact H|right; exact H].
+    + destruct (IH (fst (ml_add_hook w ir v)) (A ++ [v]) B F1 C1) as [Hk2 [Hn2 Hki2]].
+      * rewrite Hik1. exact G.
+      * intros x Hx. rewrite Hik1. apply Gv. right. exact Hx.
+      * exact Hnd'.
+      * intros x Hx Hi. rewrite !in_app_iff in Hi. cbn [In] in Hi. destruct Hi as [[Hi|[Hi|[]]]|Hi].
+        -- apply (Hnin x); [right; exact Hx|]. apply in_or_app. left. exact Hi.
+        -- subst. contradiction.
+        -- apply (Hnin x); [right; exact Hx|]. apply in_or_app. right. exact Hi.
+      * split; [|split].
+        -- intros x Hx. rewrite (Hk2 x Hx), (Hk1 x Hx). reflexivity.
+        -- intro x. rewrite Hn2, mem_cons. destruct (Z.eqb_spec x v) as [E|E]; cbn [orb].
+           ++ subst. rewrite (getn_of_nodes_some _ v _ (eq_trans (Hn1 v) ltac:(rewrite Z.eqb_refl; reflexivity))).
+              rewrite Hn1, Z.eqb_refl. destruct (mem v vs); reflexivity.
+           ++ assert (Hnx : nodes (fst (ml_add_hook w ir v)) x = nodes w x).
+              { rewrite Hn1. destruct (Z.eqb_spec x v); [contradiction|reflexivity]. }
+              rewrite (getn_of_nodes_eq _ _ x Hnx), Hnx. reflexivity.
+        -- rewrite Hki2. exact Hki1.
+Qed.
+
+Lemma par_of_nodes w x nd : nodes w x = Some nd -> par w x = npar nd.
+Proof. intro H. unfold par. rewrite (getn_of_nodes_some w x nd H). reflexivity. Qed.
+
+Lemma mem_ext x a b : (In x a <-> In x b) -> mem x a = mem x b.
+Proof.
+  intro H. destruct (mem x b) eqn:E.
+  - apply mem_In. apply H. apply mem_In. exact E.
+  - apply mem_false. intro Ha. apply mem_false in E. apply E. apply H. exact Ha.
+Qed.
+
+(* ---------- extend ---------- *)
+Lemma insert_closed w known ir i v :
+  Forest w known -> CacheInv w -> is_k w ir KIR = true -> is_k w v KMod = true ->
+  kids (fst (ml_insert w ir i v)) ir =
+    insert_at (clamp_insert i (length (remove_id v (kids w ir)))) v (remove_id v (kids w ir)) /\
+  (forall x, x <> ir -> kids (fst (ml_insert w ir i v)) x = remove_id v (kids w x)) /\
+  (forall x, nodes (fst (ml_insert w ir i v)) x = if x =? v then Some (with_par (getn w v) (Some ir)) else nodes w x).
+Proof.
+  intros F C G1 G2. rewrite (ml_insert_eq w known ir i v F). cbn [fst].
+  rewrite kids_attach_same, (kids_pre_detach w known v F ir).
+  split; [reflexivity|]. split.
+  - intros x Hx. rewrite kids_attach_other by exact Hx. apply (kids_pre_detach w known v F).
+  - intro x. rewrite nodes_attach. destruct (Z.eqb_spec x v) as [E|E].
+    + rewrite with_par_getn_pre_detach. reflexivity.
+    + apply nodes_pre_detach_other. exact E.
+Qed.
+
+Lemma append_closed w known ir v :
+  Forest w known -> CacheInv w -> is_k w ir KIR = true -> is_k w v KMod = true ->
+  kids (fst (ml_append w ir v)) ir = remove_id v (kids w ir) ++ [v] /\
+  (forall x, x <> ir -> kids (fst (ml_append w ir v)) x = remove_id v (kids w x)) /\
+  (forall x, nodes (fst (ml_append w ir v)) x = if x =? v then Some (with_par (getn w v) (Some ir)) else nodes w x).
+Proof.
+  intros F C G1 G2. unfold ml_append.
+  destruct (insert_closed w known ir (Z.of_nat (length (kids w ir))) v F C G1 G2) as [H1 H2].
+  split; [|exact H2]. rewrite H1. apply insert_at_ge. rewrite clamp_insert_big; [lia|].
+  apply inj_le. unfold remove_id. apply filter_length_le'.
+Qed.
+
+Lemma extend_closed known ir vs : forall w,
+  Forest w known -> CacheInv w -> is_k w ir KIR = true -> (forall v, In v vs -> is_k w v KMod = true) ->
+  kids (fst (fold_ok (fun w v => ml_append w ir v) vs w)) ir = fold_left (fun l v => remove_id v l ++ [v]) vs (kids w ir) /\
+  (forall x, x <> ir -> kids (fst (fold_ok (fun w v => ml_append w ir v) vs w)) x = fold_left (fun l v => remove_id v l) vs (kids w x)) /\
+  (forall x, nodes (fst (fold_ok (fun w v => ml_append w ir v) vs w)) x =
+             if mem x vs then Some (with_par (getn w x) (Some ir)) else nodes w x).
+Proof.
+  induction vs as [|v vs IH]; intros w F C G Gv.
+  - rewrite fold_ok_nil. cbn [fst fold_left]. split; [reflexivity|]. split; reflexivity.
+  - rewrite fold_ok_cons. cbn [fst fold_left].
+    assert (Hv : is_k w v KMod = true) by (apply Gv; left; reflexivity).
+    destruct (append_closed w known ir v F C G Hv) as [Hki1 [Hk1 Hn1]].
+    assert (Ha : ml_append w ir v = ml_insert w ir (Z.of_nat (length (kids w ir))) v) by reflexivity.
+    destruct (insert_inv w known ir (Z.of_nat (length (kids w ir))) v F C G Hv) as [F1 [C1 _]].
+    pose proof (insert_is_k w known ir (Z.of_nat (length (kids w ir))) v F C Hv) as Hik.
+    rewrite <- Ha in F1, C1, Hik.
+    destruct (IH (fst (ml_append w ir v)) F1 C1) as [Hki2 [Hk2 Hn2]].
+    + rewrite Hik. exact G.
+    + intros x Hx. rewrite Hik. apply Gv. right. exact Hx.
+    + split; [|split].
+      * rewrite Hki2, Hki1. reflexivity.
+      * intros x Hx. rewrite (Hk2 x Hx), (Hk1 x Hx). reflexivity.
+      * intro x. rewrite Hn2, mem_cons. destruct (Z.eqb_spec x v) as [E|E]; cbn [orb].
+        -- subst. rewrite (getn_of_nodes_some _ v _ (eq_trans (Hn1 v) ltac:(rewrite Z.eqb_refl; reflexivity))).
+           rewrite Hn1, Z.eqb_refl. destruct (mem v vs); reflexivity.
+        -- assert (Hnx : nodes (fst (ml_append w ir v)) x = nodes w x).
+           { rewrite Hn1. destruct (Z.eqb_spec x v); [contradiction|reflexivity]. }
+           rewrite (getn_of_nodes_eq _ _ x Hnx), Hnx. reflexivity.
+Qed.
+
+Lemma fold_append_fresh vs : forall l, NoDup vs -> (forall v, In v vs -> ~ In v l) ->
+  fold_left (fun l v => remove_id v l ++ [v]) vs l = l ++ vs.
+Proof.
+  induction vs as [|v vs IH]; intros l Hnd Hnin.
+  - cbn. rewrite app_nil_r. reflexivity.
+  - cbn [fold_left]. inversion Hnd as [|v' vs' Hv Hnd']. subst.
+    rewrite (remove_id_notin v l) by (apply Hnin; left; reflexivity).
+    rewrite IH; [rewrite <- app_assoc; reflexivity|exact Hnd'|].
+    intros x Hx Hi. apply in_app_or in Hi. destruct Hi as [Hi|[Hi|[]]].
+    + apply (Hnin x); [right; exact Hx|exact Hi].
+    + subst. contradiction.
+Qed.
+
+Theorem extend_effect w known ir vs :
+  Forest w known -> CacheInv w -> op_okb w known (OModExtend ir vs) = true ->
+  exists w', step w (OModExtend ir vs) = Ok w' /\
+    kids w' ir = fold_left (fun l v => remove_id v l ++ [v]) vs (kids w ir) /\
+    (NoDup vs -> (forall v, In v vs -> ~ In v (kids w ir)) -> kids w' ir = kids w ir ++ vs) /\
+    (forall x, x <> ir -> kids w' x = fold_left (fun l v => remove_id v l) vs (kids w x)) /\
+    (forall x, nodes w' x = if mem x vs then Some (with_par (getn w x) (Some ir)) else nodes w x).
+Proof.
+  intros F C G. cbn [op_okb] in G. apply andb_true_iff in G. destruct G as [G1 G2]. rewrite forallb_forall in G2.
+  destruct (extend_fold known ir vs w F C G1 G2) as [_ [_ Hf]].
+  destruct (extend_closed known ir vs w F C G1 G2) as [H1 [H2 H3]].
+  exists (fst (fold_ok (fun w v => ml_append w ir v) vs w)).
+  split; [rewrite step_extend; apply flagged_true; exact Hf|].
+  split; [exact H1|]. split; [|split; assumption].
+  intros Hnd Hnin. rewrite H1. apply fold_append_fresh; assumption.
+Qed.
+
+(* ---------- del slice / clear ---------- *)
+Theorem delslice_effect w known ir a b :
+  Forest w known -> CacheInv w -> op_okb w known (OModDelSlice ir a b) = true ->
+  let l := kids w ir in
+  let lo := norm_bound a 0 (length l) in
+  let hi := Z.max lo (norm_bound b (Z.of_nat (length l)) (length l)) in
+  let victims := slice_victims l lo hi in
+  exists w', step w (OModDelSlice ir a b) = Ok w' /\
+    kids w' ir = firstn (Z.to_nat lo) l ++ skipn (Z.to_nat hi) l /\
+    (forall x, x <> ir -> kids w' x = kids w x) /\
+    (forall x, nodes w' x = if mem x victims then Some (with_par (getn w x) None) else nodes w x) /\
+    (forall x, In x victims -> par w' x = None) /\
+    (forall x, x <> ir -> cache w' x = cache w x).
+Proof.
+  intros F C G l lo hi victims. cbn [op_okb] in G. pose proof (step_delslice w ir a b) as Hs. cbv zeta in Hs.
+  fold l in Hs. fold lo in Hs. set (hi0 := norm_bound b (Z.of_nat (length l)) (length l)) in *.
+  assert (Hlo : 0 <= lo) by (apply norm_bound_nonneg; lia).
+  assert (Hvic : slice_victims l lo hi0 = victims).
+  { unfold victims, slice_victims, hi. f_equal. lia. }
+  rewrite Hvic in Hs.
+  assert (Hl : kids w ir = firstn (Z.to_nat lo) l ++ victims ++ skipn (Z.to_nat hi) l).
+  { pose proof (slice_victims_split l lo hi0 Hlo) as H. rewrite Hvic in H. exact H. }
+  destruct (remove_slice w known ir _ _ _ F C G Hl) as [_ [_ [Hf1 [_ Hfl]]]].
+  fold l in Hfl. rewrite Hfl, Hf1 in Hs. cbn [flagged] in Hs.
+  eexists. split; [exact Hs|]. split; [apply kids_with_kids_same|]. split; [|split; [|split]].
+  - intros x Hx. rewrite kids_with_kids_other by exact Hx. rewrite kids_remove_hooks_fold. reflexivity.
+  - intro x. rewrite nodes_with_kids. apply nodes_remove_hooks_fold.
+  - intros x Hx. erewrite par_of_nodes; [|rewrite nodes_with_kids, nodes_remove_hooks_fold].
+    2:{ apply mem_In in Hx. rewrite Hx. reflexivity. }
+    reflexivity.
+  - intros x Hx. rewrite cache_with_kids. apply cache_remove_hooks_fold_other. exact Hx.
+Qed.
+
+Theorem clear_effect w known ir :
+  Forest w known -> CacheInv w -> op_okb w known (OModClear ir) = true ->
+  exists w', step w (OModClear ir) = Ok w' /\
+    kids w' ir = [] /\
+    (forall x, x <> ir -> kids w' x = kids w x) /\
+    (forall x, nodes w' x = if mem x (kids w ir) then Some (with_par (getn w x) None) else nodes w x) /\
+    (forall x, In x (kids w ir) -> par w' x = None) /\
+    (forall x, x <> ir -> cache w' x = cache w x).
+Proof.
+  intros F C G. cbn [op_okb] in G.
+  destruct (remove_batch w known ir (rev (kids w ir)) F C G) as [_ [_ [Hf1 _]]].
+  - apply NoDup_rev. apply (f_nodup w known F).
+  - intros v Hv. apply in_rev. exact Hv.
+  - pose proof (step_clear w ir) as Hs. rewrite Hf1 in Hs. cbn [flagged] in Hs.
+    assert (Hn : forall x, nodes (with_kids (fst (fold_ok (fun w v => ml_remove_hook w ir v) (rev (kids w ir)) w)) ir []) x =
+                          if mem x (kids w ir) then Some (with_par (getn w x) None) else nodes w x).
+    { intro x. rewrite nodes_with_kids, nodes_remove_hooks_fold.
+      rewrite (mem_ext x (rev (kids w ir)) (kids w ir)); [reflexivity|]. symmetry. apply in_rev. }
+    eexists. split; [exact Hs|]. split; [apply kids_with_kids_same|]. split; [|split; [|split]].
+    + intros x Hx. rewrite kids_with_kids_other by exact Hx. rewrite kids_remove_hooks_fold. reflexivity.
+    + exact Hn.
+    + intros x Hx. erewrite par_of_nodes; [|rewrite Hn].
+      2:{ apply mem_In in Hx. rewrite Hx. reflexivity. }
+      reflexivity.
+    + intros x Hx. rewrite cache_with_kids. apply cache_remove_hooks_fold_other. exact Hx.
+Qed.
+
+(* ---------- set item ---------- *)
+Theorem setitem_effect w known ir i v k old :
+  Forest w known -> CacheInv w -> op_okb w known (OModSetItem ir i v) = true ->
+  norm_index i (length (kids w ir)) = Some k -> nth_error (kids w ir) k = Some old ->
+  (~ In v (kids w ir) \/ v = old) ->
+  exists w', step w (OModSetItem ir i v) = Ok w' /\
+    kids w' ir = set_at k v (kids w ir) /\
+    (forall x, x <> ir -> kids w' x = remove_id v (kids w x)) /\
+    (forall x, nodes w' x = if x =? v then Some (with_par (getn w v) (Some ir))
+                            else if x =? old then Some (with_par (getn w old) None) else nodes w x) /\
+    par w' v = Some ir /\ (v <> old -> par w' old = None).
+Proof.
+  intros F C G En Eo Hv. cbn [op_okb] in G. apply andb_true_iff in G. destruct G as [G1 G2].
+  assert (Ec : mem v (kids w ir) && negb (v =? old) = false).
+  { destruct Hv as [Hv|Hv]; [apply mem_false in Hv; rewrite Hv; reflexivity|].
+    subst. rewrite Z.eqb_refl. apply andb_false_r. }
+  destruct (setitem_main w known ir v k old F C G1 G2 Eo Hv) as [_ [_ [Hf1 [Hf2 Hk]]]].
+  pose proof (step_setitem w ir i v k old En Eo Ec) as Hs. rewrite Hk, Hf1, Hf2 in Hs. cbn [andb flagged] in Hs.
+  (* closed form of the add hook on the intermediate world *)
+  destruct (virtual_start w known ir F C) as [F0 C0].
+  assert (Hoin : In old (kids w ir)) by (eapply nth_error_In; exact Eo).
+  destruct (remove_hook_virtual w known ir (kids w ir) old F0 C0 G1 Hoin) as [F1 _].
+  set (w1 := fst (ml_remove_hook w ir old)) in *.
+  assert (Hp1 : par w1 v <> Some ir).
+  { intro E. change (par w1 v) with (par (with_kids w1 ir (remove_id old (kids w ir))) v) in E.
+    apply (f_two_ended _ known F1) in E. rewrite kids_with_kids_same, In_remove_id in E.
+    destruct E as [E1 E2]. destruct Hv; contradiction. }
+  destruct (add_hook_closed w1 ir v (ok_except_virtual w1 known ir _ F1) Hp1) as [Hn2 [Hk2 _]].
+  assert (Hn : forall x, nodes (fst (ml_add_hook w1 ir v)) x =
+                         if x =? v then Some (with_par (getn w v) (Some ir))
+                         else if x =? old then Some (with_par (getn w old) None) else nodes w x).
+  { intro x. rewrite Hn2. unfold w1. rewrite getn_remove_hook, nodes_remove_hook.
+    destruct (Z.eqb_spec x v) as [E|E]; [|reflexivity]. destruct (Z.eqb_spec v old) as [E1|E1]; [subst|]; reflexivity. }
+  eexists. split; [exact Hs|]. split; [apply kids_with_kids_same|]. split; [|split; [|split]].
+  - intros x Hx. rewrite kids_with_kids_other by exact Hx. rewrite (Hk2 x Hx). reflexivity.
+  - intro x. rewrite nodes_with_kids. apply Hn.
+  - erewrite par_of_nodes; [|rewrite nodes_with_kids, Hn, Z.eqb_refl; reflexivity]. reflexivity.
+  - intro Hne. erewrite par_of_nodes; [|rewrite nodes_with_kids, Hn].
+    2:{ destruct (Z.eqb_spec old v) as [E|E]; [congruence|]. rewrite Z.eqb_refl. reflexivity. }
+    reflexivity.
+Qed.
+
+Theorem setitem_effect_index w ir i v :
+  norm_index i (length (kids w ir)) = None -> step w (OModSetItem ir i v) = Err EIndex.
+Proof. intro H. cbn [step]. rewrite H. reflexivity. Qed.
+
+(* the refused same-list shape (defect D4) *)
+Theorem setitem_effect_refused w ir i v k old :
+  norm_index i (length (kids w ir)) = Some k -> nth_error (kids w ir) k = Some old ->
+  In v (kids w ir) -> v <> old -> step w (OModSetItem ir i v) = Err EImpossible.
+Proof.
+  intros H1 H2 H3 H4. cbn [step]. rewrite H1, H2. apply mem_In in H3. rewrite H3.
+  destruct (Z.eqb_spec v old); [contradiction|]. reflexivity.
+Qed.
+
+(* ---------- set slice ---------- *)
+Theorem setslice_effect w known ir a b vs :
+  Forest w known -> CacheInv w -> op_okb w known (OModSetSlice ir a b vs) = true ->
+  let l := kids w ir in
+  let lo := norm_bound a 0 (length l) in
+  let hi := Z.max lo (norm_bound b (Z.of_nat (length l)) (length l)) in
+  let pre := firstn (Z.to_nat lo) l in
+  let victims := slice_victims l lo hi in
+  let post := skipn (Z.to_nat hi) l in
+  NoDup vs -> (forall v, In v vs -> ~ In v pre /\ ~ In v post) ->
+  exists w', step w (OModSetSlice ir a b vs) = Ok w' /\
+    kids w' ir = pre ++ vs ++ post /\
+    (forall x, x <> ir -> kids w' x = fold_left (fun l v => remove_id v l) vs (kids w x)) /\
+    (forall x, nodes w' x = if mem x vs then Some (with_par (getn w x) (Some ir))
+                            else if mem x victims then Some (with_par (getn w x) None) else nodes w x).
+Proof.
+  intros F C G l lo hi pre victims post Hnd Hout.
+  cbn [op_okb] in G. apply andb_true_iff in G. destruct G as [G1 G2]. rewrite forallb_forall in G2.
+  pose proof (step_setslice w ir a b vs) as Hs. cbv zeta in Hs.
+  fold l in Hs. fold lo in Hs. fold hi in Hs. fold pre in Hs. fold post in Hs. fold victims in Hs.
+  assert (Ec : existsb (fun v => mem v pre || mem v post) vs || negb (Nat.eqb (length (dedup vs)) (length vs)) = false).
+  { apply orb_false_iff. split.
+    - destruct (existsb (fun v => mem v pre || mem v post) vs) eqn:E; [|reflexivity]. exfalso.
+      apply existsb_exists in E. destruct E as [v [Hv Hm]]. destruct (Hout v Hv) as [H1 H2].
+      apply orb_true_iff in Hm. destruct Hm as [Hm|Hm]; apply mem_In in Hm; contradiction.
+    - apply negb_false_iff. apply Nat.eqb_eq.
+      clear - Hnd. induction vs as [|x vs IH]; [reflexivity|]. inversion Hnd as [|x' vs' Hx Hn]. subst.
+      cbn [dedup]. apply mem_false in Hx. rewrite Hx. cbn [length]. f_equal. apply IH. exact Hn. }
+  rewrite Ec in Hs.
+  assert (Hlo : 0 <= lo) by (apply norm_bound_nonneg; lia).
+  assert (Hl : kids w ir = pre ++ victims ++ post).
+  { pose proof (slice_victims_split l lo hi Hlo) as H. replace (Z.max lo hi) with hi in H by (unfold hi; lia). exact H. }
+  assert (Hnin : forall v, In v vs -> ~ In v (pre ++ post)).
+  { intros v Hv Hi. destruct (Hout v Hv) as [H1 H2]. apply in_app_or in Hi. destruct Hi; contradiction. }
+  destruct (setslice_main w known ir pre victims post vs F C G1 Hl G2 Hnd Hnin) as [_ [_ [Hf1 Hf2]]].
+  rewrite Hf1, Hf2 in Hs. cbn [andb flagged] in Hs.
+  destruct (remove_slice w known ir pre victims post F C G1 Hl) as [F1 [C1 [_ [Hk1 _]]]].
+  set (w1 := fst (fold_ok (fun w v => ml_remove_hook w ir v) victims w)) in *.
+  destruct (add_hooks_fold_closed known ir vs w1 pre post F1 C1) as [Hk2 [Hn2 _]].
+  - rewrite Hk1. exact G1.
+  - intros v Hv. rewrite Hk1. apply G2. exact Hv.
+  - exact Hnd.
+  - exact Hnin.
+  - eexists. split; [exact Hs|]. split; [apply kids_with_kids_same|]. split.
+    + intros x Hx. rewrite kids_with_kids_other by exact Hx. rewrite (Hk2 x Hx). unfold w1.
+      rewrite kids_remove_hooks_fold. reflexivity.
+    + intro x. rewrite nodes_with_kids, Hn2.
+      assert (Hn1 : nodes w1 x = if mem x victims then Some (with_par (getn w x) None) else nodes w x)
+        by apply nodes_remove_hooks_fold.
+      destruct (mem x vs).
+      * destruct (mem x victims).
+        -- rewrite (getn_of_nodes_some w1 x _ Hn1). reflexivity.
+        -- rewrite (getn_of_nodes_eq w w1 x Hn1). reflexivity.
+      * exact Hn1.
+Qed.
+
+(* the refused shapes (defect D4): a value that stays elsewhere in the list, or a value listed twice *)
+Theorem setslice_effect_refused w ir a b vs :
+  let l := kids w ir in
+  let lo := norm_bound a 0 (length l) in
+  let hi := Z.max lo (norm_bound b (Z.of_nat (length l)) (length l)) in
+  (exists v, In v vs /\ (In v (firstn (Z.to_nat lo) l) \/ In v (skipn (Z.to_nat hi) l))) \/ ~ NoDup vs ->
+  step w (OModSetSlice ir a b vs) = Err EImpossible.
+Proof.
+  intros l lo hi H. rewrite step_setslice. cbv zeta. fold l. fold lo. fold hi.
+  match goal with |- (if ?c then _ else _) = _ => assert (Hc : c = true); [|rewrite Hc; reflexivity] end.
+  apply orb_true_iff. destruct H as [[v [Hv Hi]]|H].
+  - left. apply existsb_exists. exists v. split; [exact Hv|]. apply orb_true_iff.
+    destruct Hi as [Hi|Hi]; [left|right]; apply mem_In; exact Hi.
+  - right. apply negb_true_iff. apply Nat.eqb_neq. intro E. apply H. apply dedup_full_nodup. exact E.
 Qed.
